@@ -1,0 +1,12 @@
+//go:build !verif
+
+package app
+
+import (
+	"time"
+
+	"github.com/f1bonacc1/process-compose/src/command"
+)
+
+func verifCommander(_ *Process) command.Commander   { return nil }
+func verifBackoff(_ *Process) (time.Duration, bool) { return 0, false }
